@@ -41,6 +41,15 @@ CLAIMED.update({
    technique="Verus contracts on statement ranges extracted from the LIMIT/TopN coroutines", design='5 (C12), 4.5 U-limit/U-topncap'),
 })
 
+CLAIMED.update({
+ 'C02': dict(
+   text="Function-level proof of the aggregate *step* shared by hash and sort aggregation (Ext::add/or, Evaluator::agg_append, init_agg_state, AggState::result/into_result, extracted verbatim): "
+        "for every state and every input value, SUM/MIN/MAX/COUNT(x)/COUNT(DISTINCT x)/FIRST skip NULL, COUNT-like aggregates start at 0 and the others at NULL. "
+        "Partial (aggregates only): joins, binder lowering, 3VL kernels and the array-level eval_agg (ArrayImpl::sum over raw slots) are not under contract.",
+   note="Assumes A-dvarith (DataValue +/min/max shimmed from the macro text over {Null,Bool,Int32,Int64}), A-hashset, A-egg (children precede parents); integer overflow and mixed variants are preconditions.",
+   technique="Verus contracts on the extracted aggregate step functions", design='5 (C02), 4.5 U-aggstep'),
+})
+
 NA = {
  'C01': "rewrite rules are egg pattern strings inside rw! macros plus e-class analyses; 'two plan terms have equal SQL results' is not expressible as a contract on a Rust function (would be proving a hand-written semantics = a model)",
  'C05': "whole-engine observational equivalence of two async trait implementations over statement histories; no single-call or single-structure contract states it",
@@ -57,7 +66,7 @@ NA = {
 }
 # claimed in DESIGN.md but not wired yet are listed here with that reason until their units exist
 PENDING = {k: 'planned in DESIGN.md (function-level contracts) but its units are not wired into ./check yet; not claimed until they are'
-           for k in ('C02', 'C06', 'C07')}
+           for k in ('C06', 'C07')}
 
 
 def main():
